@@ -10,7 +10,8 @@
 (* State (set by the set-up events, read from the log: the floating-point  *)
 (* parameter choice of the code is not part of the property):              *)
 (*   logic, sigw   which implementation, words per signature               *)
-(*   phase         "new" | "sharded" | "ready"                             *)
+(*   phase         "new" | "sharded" | "ready" | "wild" (after a set-up    *)
+(*                 that refused its arguments: nothing is known)           *)
 (*   shardBits     shard_high_bits()                                       *)
 (*   nkeys         the n of the last set_up_shards                         *)
 (*   nv, nsk       num_vertices(), num_sort_keys()       (wide numbers)    *)
@@ -229,7 +230,8 @@ GeomWhy(ev, st) ==
              ELSE "ok"
 
 ShardsEff(ev, st) ==
-    IF ev.out # "ret" THEN [why |-> "outcome", st |-> st]
+    IF ev.out = "panic" /\ st.phase = "wild" THEN [why |-> "ok", st |-> st]
+    ELSE IF ev.out # "ret" THEN [why |-> "outcome", st |-> st]
     ELSE LET w == ProjWhy(ev, st, ev.bits)
          IN  [why |-> w,
               st  |-> [st EXCEPT !.phase = "sharded", !.shardBits = ev.bits, !.nkeys = ev.n]]
@@ -239,7 +241,7 @@ ShardsEff(ev, st) ==
 \* same n with max_shard the size of the largest of 2^shardBits shards holding
 \* n keys, i.e. ceil(n / 2^shardBits) <= max_shard <= n.
 InSetupDomain(ev, st) ==
-    /\ st.phase # "new"
+    /\ st.phase \in {"sharded", "ready"}
     /\ ev.n = st.nkeys
     /\ (Sharding(st.logic) =>
           /\ WLeq(ev.msv, ev.n)
@@ -253,18 +255,19 @@ GraphsEff(ev, st) ==
                   ELSE IF Vertex32(st.logic, st.sigw) /\ (WLeq(Cap32, ev.msv) \/ WLeq(Cap32, ev.n)) THEN "ok"
                   ELSE IF WLeq(CapAny, ev.n) THEN "ok"
                   ELSE "outcome",
-          st  |-> [st EXCEPT !.phase = IF @ = "new" THEN "new" ELSE "sharded"]]
+          st  |-> [st EXCEPT !.phase = "wild"]]
     ELSE IF ev.out # "ret" THEN [why |-> "outcome", st |-> st]
     ELSE LET w1 == ProjWhy(ev, st, st.shardBits)
              w2 == GeomWhy(ev, st)
          IN  [why |-> IF w1 # "ok" THEN w1 ELSE w2,
               st  |-> [st EXCEPT !.phase = IF InSetupDomain(ev, st) THEN "ready"
-                                           ELSE IF @ = "new" THEN "new" ELSE "sharded",
+                                           ELSE IF @ = "ready" THEN "sharded" ELSE @,
                                  !.nv = ev.nv, !.nsk = ev.nsk, !.geom = ev.geom]]
 
 \* reload (C15) and `state`: nothing changes
 SameEff(ev, st) ==
-    IF ev.out # "ret" THEN [why |-> "outcome", st |-> st]
+    IF ev.out = "panic" /\ st.phase = "wild" THEN [why |-> "ok", st |-> st]
+    ELSE IF ev.out # "ret" THEN [why |-> "outcome", st |-> st]
     ELSE IF "ioerr" \in DOMAIN ev THEN [why |-> "reload-failed", st |-> st]
     ELSE LET w == ProjWhy(ev, st, st.shardBits)
          IN  [why |-> IF w # "ok" THEN w
